@@ -329,7 +329,12 @@ pub fn all_params(tier: Tier) -> Vec<(Params, usize)> {
 pub fn items(tier: Tier) -> Vec<DxItem> {
     all_params(tier)
         .into_iter()
-        .map(|(p, b)| DxItem::new(params_json(&p), make(p), b))
+        .map(|(p, b)| {
+            let mut it = DxItem::new(params_json(&p), make(p), b);
+            // "everyone else runs to completion first" as one deviation
+            it.exec.quiesce = true;
+            it
+        })
         .collect()
 }
 
